@@ -45,6 +45,7 @@ type MineOpts struct {
 	RepeatBias bool // prefer repeated holes (C02)
 	NoDots     bool // C03
 	DotsBias   bool // C04
+	DupBias    bool // C03: plus sides that use a metavariable several times
 }
 
 // Candidate roots ------------------------------------------------------------
@@ -264,6 +265,9 @@ func (m *Mined) addDots(t *rapid.T, ctr *dotsCtr) {
 	for d := 0; d < want; d++ {
 		if len(forCands) > 0 && rapid.IntRange(0, 5).Draw(t, "forDots") == 0 {
 			s := forCands[rapid.IntRange(0, len(forCands)-1).Draw(t, "forIdx")]
+			if s.Index >= 0 && s.Index >= s.Parent.Field(s.Field).Len() {
+				continue // the list was shortened by an earlier elision
+			}
 			var body *ast.BlockStmt
 			switch x := s.Node().(type) {
 			case *ast.ForStmt:
@@ -273,6 +277,8 @@ func (m *Mined) addDots(t *rapid.T, ctr *dotsCtr) {
 				body = x.Body
 			case *ast.RangeStmt:
 				body = x.Body
+			default:
+				continue
 			}
 			id := ctr.next()
 			m.Dots[id] = DotsInfo{Kind: "for", Slot: "ForStmt"}
@@ -667,6 +673,9 @@ func (m *Mined) editOnce(t *rapid.T, needMarker bool) (string, bool) {
 	})
 	mk := len(m.Edits)
 	choices := []string{"rename", "rename", "lit", "wrap", "add-stmt", "add-arg"}
+	if m.Opts.DupBias && !needMarker && len(holeSlots) > 0 {
+		choices = append(choices, "dup-hole", "dup-hole", "dup-hole", "add-hole-arg", "add-hole-arg")
+	}
 	if !needMarker {
 		choices = append(choices, "swap", "drop-elem", "dup-hole", "del-stmt", "drop-dots", "wrap-sub")
 	}
@@ -723,6 +732,24 @@ func (m *Mined) editOnce(t *rapid.T, needMarker bool) (string, bool) {
 		st := &ast.ExprStmt{X: &ast.CallExpr{Fun: markerIdent(mk), Args: args}}
 		insertAt(v, at, reflect.ValueOf(st))
 		return "add-stmt@" + l.Name(), true
+	case "add-hole-arg":
+		// append another copy of a metavariable to an argument list
+		if len(exprLists) == 0 || len(holeSlots) == 0 {
+			return "", false
+		}
+		l := exprLists[rapid.IntRange(0, len(exprLists)-1).Draw(t, "hargList")]
+		v := l.Value()
+		if l.Name() == "CompositeLit.Elts" && v.Len() > 0 {
+			if _, kv := v.Index(0).Interface().(*ast.KeyValueExpr); kv {
+				return "", false
+			}
+		}
+		if call, ok := l.Parent.Addr().Interface().(*ast.CallExpr); ok && call.Ellipsis.IsValid() {
+			return "", false
+		}
+		h := holeSlots[rapid.IntRange(0, len(holeSlots)-1).Draw(t, "hargHole")].Node().(*ast.Ident)
+		insertAt(v, rapid.IntRange(0, v.Len()).Draw(t, "hargAt"), reflect.ValueOf(&ast.Ident{Name: h.Name}))
+		return "add-hole-arg@" + l.Name(), false
 	case "add-arg":
 		if len(exprLists) == 0 {
 			return "", false
